@@ -27,6 +27,7 @@ type Validated struct {
 	IterPaths []map[string]bool
 	Exit      map[string]bool
 	Iter      map[string]bool // facts holding in every accepted iteration (loop indices normalised)
+	Attrs     map[string]AtomAttr // sign classes of parsed decimals proven on every accepting exit path
 	OK        bool
 }
 
@@ -81,6 +82,23 @@ func ValidatedFacts(m *Model, x *Explorer, ep *EntryPoint) *Validated {
 	for _, o := range outs {
 		switch {
 		case o.Kind == exitReturn && o.Commit:
+			if fe {
+				v.Attrs = map[string]AtomAttr{}
+				for a, at := range o.St.atomAttr {
+					v.Attrs[a] = *at
+				}
+			} else {
+				for a, at := range v.Attrs {
+					o2 := o.St.atomAttr[a]
+					if o2 == nil {
+						delete(v.Attrs, a)
+						continue
+					}
+					at.NonNeg = at.NonNeg && o2.NonNeg
+					at.Pos = at.Pos && o2.Pos
+					v.Attrs[a] = at
+				}
+			}
 			inter(v.Exit, &fe, o.St.facts)
 			v.ExitPaths = append(v.ExitPaths, factMap(o.St.facts))
 		case o.Kind == exitLoopback:
@@ -104,6 +122,7 @@ func checkC06(c *Ctx, e *Env) {
 		fmt.Printf("DBG C06 explored at %v\n", time.Since(c.Start))
 	}
 	noteUndecided(c, m, r, "C06.E1")
+	ruleArith(c, e, "C06.ARITH", func(ep *EntryPoint) bool { return ep.Service == "marketplace" && (ep.Kind == "msg" || ep.Kind == "beginblock") })
 	nPaths := 0
 	for _, h := range r.Handlers {
 		touches := false
